@@ -5,13 +5,56 @@ import pathlib
 HERE = pathlib.Path(__file__).resolve().parent
 
 # property -> (category, technique, text, note, design_ref)
+OTHER_TEXT = ('Static rule conformance: decides, for every input at once, the structural clauses named below from the shape of the current '
+              'source (each is a necessary condition of the property: breaking it breaks the behaviour); it is not a proof of the whole behavioural '
+              'statement. Unrecognised constructs end the run with exit 2, never a silent pass. ')
+NOTE = ('Trusted: the axioms about bitsets 0.8.4 / stdlib listed in every evidence file (DESIGN.md §3) and the Python semantics of the constructs a rule names; '
+        'for template rules the published correctness theorem of the algorithm.')
+
+# property -> (category, technique, text, note, design_ref)
 CLAIMED = {
+    'C01': ('other', 'ast abstract interpretation of the five bit-scan loops (counter/shift/guard discipline, trailing-zero idiom table), two-sorted wiring of _pair_with/Relation.__new__, precision lint',
+            OTHER_TEXT + 'C01: every derivation phase reduces over the opposite vector family from its all-ones value with the un-shifted position index exactly when bit 0 is set; crossed pairing; API routes; no fixed-width constants or floats in bit arithmetic.', NOTE, 'DESIGN.md §5 C01'),
+    'C02': ('other', 'ast sort inference (object-set vs property-set) and def-use over Context.__getitem__ and the Lattice lookups',
+            OTHER_TEXT + 'C02: the lookup returns exactly the doubleprime pair of the query with consistent sorts; mapping keyed by extent; int/slice/falsy keys.', NOTE, 'DESIGN.md §5 C02'),
+    'C03': ('other', 'algorithm-template conformance (Lindig 2000) with Boolean canonical forms of the accept test under the algorithm invariants',
+            OTHER_TEXT + 'C03: lindig.neighbors/lattice and Lattice.__init__ are instances of the published template (seed, dedup+queue pairing, exactly-once yield, unfiltered materialisation).', NOTE + ' Enumeration theorem: Lindig, Fast Concept Analysis (2000).', 'DESIGN.md §5 C03, App. E'),
+    'C04': ('other', 'algorithm-template conformance (FCbO, Outrata & Vychodil 2012) under the sort swap, Boolean canonical forms of canonicity/prune tests, freshness of the per-node table',
+            OTHER_TEXT + 'C04: both generators instantiate one template with the right sorts, sizes and indexes; wrappers map Concept._make unfiltered.', NOTE + ' CbO correctness theorem for the required slots.', 'DESIGN.md §5 C04, App. E'),
+    'C05': ('other', 'pairing/typestate rules over lindig.lattice and Lattice.__init__ (converse link recorded on both branches, generator drained before lower links are read)',
+            OTHER_TEXT + 'C05: upper and lower links are recorded conversely for every generated cover and resolved completely through the extent mapping; Context.neighbors closes its query.', NOTE, 'DESIGN.md §5 C05'),
+    'C06': ('other', 'ordering-slot rules (heap key = shortlex of the queued extent, enumerate without reordering, sort key/neighbour direction pairing, who-may-write)',
+            OTHER_TEXT + 'C06: index/dindex/neighbour orders are assigned from the orders the property names, in __init__, _init and both _fromlist paths.', NOTE, 'DESIGN.md §5 C06'),
+    'C07': ('other', 'Boolean canonical form of the closure argument (a|b, a&b), sort of the closure operator, reduce_or/reduce_and pairing',
+            OTHER_TEXT + 'C07: join = closure of the union of extents, meet = (closure of) the intersection, looked up in the operand lattice; aggregate forms reduce exactly the given extents.', NOTE, 'DESIGN.md §5 C07'),
     'C08': ('proof', 'AST extraction + exhaustive Boolean canonical form (row-occupancy truth tables) of the 8 predicates and 4 operator aliases',
             'Sound and complete decision of the predicate clause: each of the eight predicates (and each of <=,>=,<,>) '
             'is extracted from the source as a formula over the two extents and the top/bottom extents and proven equal, '
             'as a Boolean function on every admissible occupancy pattern, to the statement\'s definition; holds for all contexts and all pairs.',
             'Trusted: bitsets MemberBits is an int subclass with int\'s & | ^ ~ == != bool(); "iff intent(y) <= intent(x)" is the FCA duality theorem, not checked.',
             'DESIGN.md §5 C08, Appendix B'),
+    'C09': ('other', 'heap-merge template conformance of iterunion, rank/successor direction pairing at the four call sites, tools.maximal slots',
+            OTHER_TEXT + 'C09: traversal yields each rank once in pop order from a below-all-ranks start; directions pair (index, upper) / (dindex, lower); seeds reduced in the matching direction.', NOTE, 'DESIGN.md §5 C09'),
+    'C10': ('other', 'append-or-create template of _annotate with key sorts, finalisation pairing, who-may-write, Boolean canonical form of the atoms filter',
+            OTHER_TEXT + 'C10: each object/property is appended, in context order, to the label of the concept looked up by its own closure; labels finalised; atoms filter is a <= e.', NOTE, 'DESIGN.md §5 C10'),
+    'C11': ('other', 'writer/reader agreement rules (field order, key sets, cache key, flags), pickle state agreement and PICKLE-DEPTH type-graph rule',
+            OTHER_TEXT + 'C11: _tolist/_fromlist, todict/fromdict, python-literal dump/load, json, and the three pickle protocols agree field by field; lattice state is flat.', NOTE + ' Value-level round trips and cross-process behaviour are not decided.', 'DESIGN.md §5 C11'),
+    'C12': ('other', 'registry exhaustiveness, symbol-table inversion, layout token order, PARAM-CLOBBER discipline, index-export comprehension shape',
+            OTHER_TEXT + 'C12: dumper and loader of each format agree on symbols, order and parameters; suffix inference; index exports list exactly the true positions.', NOTE + ' Round-trip equality over label alphabets, quoting and encodings is not decided.', 'DESIGN.md §5 C12'),
+    'C13': ('other', 'effect extraction per mutator (container-typed fields), two-sorted name typing of cells, pairing (axis removal => purge, rename rewrite), validate-before-mutate, Unique invariant',
+            OTHER_TEXT + 'C13: every editing method keeps cells within axes, purges on removal, rewrites on rename, raises before mutating, appends in the order given; _seen == set(_items).', NOTE + ' Equality with the ordered-table model over all histories is not decided.', 'DESIGN.md §5 C13'),
+    'C14': ('other', 'freshness/ownership classification at every _fromargs site, cell comprehension templates, guard formulas by truth table, equality completeness, cross-class agreement',
+            OTHER_TEXT + 'C14: derived definitions own fresh containers and have the stated cells; __eq__/__ne__ compare the whole triple; Context and Definition agree on iteration order, crc32, tostring, shape.', NOTE, 'DESIGN.md §5 C14'),
+    'C16': ('other', 'docstring table decoding with computed feasibility sets, dispatch/orientation slots, combinations pairing, EMPTY-REDUCE lint',
+            OTHER_TEXT + 'C16: the pattern tables are exhaustive over the feasible patterns and bound to the named kinds and ranks; pairs formed once in item order with aligned columns; printing an empty list is defined.', NOTE, 'DESIGN.md §5 C16'),
+    'C17': ('other', 'interprocedural order-taint analysis (set-typed sources, ordered-view propagation, sink/sanitiser classification) over the whole package',
+            OTHER_TEXT + 'C17: no hash-seed dependent iteration order reaches an ordered observable result; id()/hash() only inside __repr__.', NOTE + ' Nondeterminism inside bitsets/graphviz/json is outside /repo.', 'DESIGN.md §5 C17, App. C'),
+    'C18': ('other', 'template and sort rules over _minimize/_minimal and their three callers',
+            OTHER_TEXT + 'C18: candidates are the subsets of the intent, one is yielded iff its derivation equals the extent; empty-extent and infimum cases.', NOTE + ' Shortlex order/uniqueness are bitsets.powerset\'s.', 'DESIGN.md §5 C18'),
+    'C19': ('other', 'exception discipline and guard predicates as propositional formulas over canonical atoms (truth-table comparison), dominance of validation over construction',
+            OTHER_TEXT + 'C19: every raise is ValueError, KeyError from dict lookups is converted, the disjunction of guards equals the specification, guards precede construction, accepted input is passed on unmodified.', NOTE, 'DESIGN.md §5 C19, App. D'),
+    'C20': ('other', 'call-site classification of node/edge/edges in visualize.lattice (one node per concept, label carriers, single orientation family)',
+            OTHER_TEXT + 'C20: one unconditional node per concept named by index; label self-loops guarded by their own label; cover edges to every lower neighbour exactly once; undirected.', NOTE + ' DOT text production is graphviz\'s.', 'DESIGN.md §5 C20'),
 }
 
 NOT_YET = {}
